@@ -326,6 +326,10 @@ class Estimator(TourSM):
 
 def run_estimator(out, prop, tier, seed):
     e = Estimator()
+    if prop == "C42" and tier == "quick":
+        # four identifiers, three steered clocks, two links: a clock created behind a link row with estimates seeded
+        # through a second link, then the older link removed (index shifts)
+        e.model_and_replay(out, prop, tier, seed, "wide", max_len=40)
     e.model_and_replay(out, prop, tier, seed, tier, max_len=40)
     out.add("traces_validated_against_impl", 0)
     sp = os.path.join(vf.workdir("Estimator_%s" % tier), "results_%s_0.ndjson.stats" % prop)
